@@ -87,7 +87,7 @@ async fn build_world(pool: SessionPoolConfig) -> Option<World> {
 
 /// one complete request through the SOCKS5 front-end: connect, echo, close, wait until the target side is gone
 async fn socks_request(w: &World, uniq: u32) -> Result<(), String> {
-    let ip = Ipv4Addr::new(127, 55, (uniq >> 8) as u8, (uniq as u8).clamp(1, 254));
+    let ip = netkit::uniq_ip(55, uniq);
     let (mut s, code) = netkit::socks5_connect(&w.socks, &SocksDest::V4(ip, w.target_port), Duration::from_secs(20)).await?;
     if code != 0 {
         return Err(format!("socks reply {code}"));
